@@ -288,6 +288,15 @@ func addLineToFile(filePath, line string) error {
 		return err
 	}
 	defer file.Close()
+	// A file that was edited by hand may lack the final newline; the new
+	// option must not be glued to the last line.
+	content, err := os.ReadFile(filePath)
+	if err != nil {
+		return err
+	}
+	if len(content) > 0 && content[len(content)-1] != '\n' {
+		line = "\n" + line
+	}
 	_, err = file.WriteString(line + "\n")
 	if err != nil {
 		return err
